@@ -55,8 +55,64 @@ def tol_str(scale, rel=1e-9):
     return f'({mant} / {10 ** (-exp)})'
 
 
-def interval_goal(label, term, venv, penv, probes, impl_value, scale):
-    """(label, coq real expression of the model, implementation float, tolerance)."""
+def _collect_funs(e, acc):
+    k = e[0]
+    if k == 'fun':
+        acc.add((e[1], tuple(e[2]), len(e[3])))
+    elif k in ('var', 'par', 'cst', 'cstq'):
+        pass
+    elif k == 'pow' or k in ir.UN:
+        _collect_funs(e[1], acc)
+    elif k in ir.BIN:
+        _collect_funs(e[1], acc); _collect_funs(e[2], acc)
+    return acc
+
+
+def eval_goal(label, gen, target, termname, names, term_ir, venv, penv, probes, impl_value, scale, dwrt=()):
+    """Kernel-level tie of the GENERATED COQ TERM (not of a Python expansion of it):
+         Rabs (eval venv penv fenv (D .. Gen.<target>.<termname>) - impl) <= tol
+    with venv/penv literal matches and fenv an if-chain over the (symbol, multi-index) pairs that occur,
+    each mapped to the probe's closed-form jet.  `dwrt` = leaves to differentiate by (outermost last)."""
+    vidx = {n: i for i, n in enumerate(names['vars'])}
+    pidx = {n: i for i, n in enumerate(names['pars'])}
+    fidx = {n: i for i, n in enumerate(names['funs'])}
+    venv_c = '(fun v : nat => match v with ' + ' | '.join(f'{vidx[n]}%nat => {lit(x)}' for n, x in venv.items() if n in vidx) + ' | _ => 0 end)'
+    penv_c = '(fun p : nat => match p with ' + ' | '.join(f'{pidx[n]}%nat => {lit(x)}' for n, x in penv.items() if n in pidx) + ' | _ => 0 end)'
+    t = term_ir
+    for w in dwrt:
+        t = ('D', w, t)
+    occ = _collect_funs(ir.expand(t), set())
+    chain = '0'
+    for (fname, alpha, nargs) in sorted(occ, reverse=True):
+        if fname not in probes or fname not in fidx:
+            raise KeyError(f'no probe for symbol {fname}')
+        args = [f'(nth {i} args 0)' for i in range(nargs)]
+        al = '[' + '; '.join(f'{a}%nat' for a in alpha) + ']'
+        chain = f'(if (Nat.eqb f {fidx[fname]}%nat && list_eqb Nat.eqb al {al})%bool then {probes[fname].coq(alpha, args)} else {chain})'
+    fenv_c = f'(fun (f : nat) (al : list nat) (args : list R) => {chain})'
+    term_c = f'{gen}.{target}.{termname}'
+    for w in dwrt:
+        term_c = f'(D {vidx[w]}%nat {term_c})'
+    goal = f'Rabs (eval {venv_c} {penv_c} {fenv_c} {term_c} - ({_flit(impl_value)})) <= {tol_str(scale)}'
+    return {'label': label, 'kind': 'eval', 'goal': goal, 'gen': gen, 'value': float(impl_value)}
+
+
+def _flit(x):
+    from fractions import Fraction
+    fr = Fraction(float(x))
+    return f'{fr.numerator}' if fr.denominator == 1 else f'{fr.numerator} / {fr.denominator}'
+
+
+def interval_goal(label, term, venv, penv, probes, impl_value, scale, gen=None, names=None, dwrt=()):
+    """(label, coq real expression of the model, implementation float, tolerance).
+    With gen=(Gen module, target, term name) and names=<names of that target> the goal is instead stated on
+    the generated Coq term itself (see eval_goal)."""
+    if gen is not None and names is not None:
+        base = term
+        for _ in dwrt:
+            assert base[0] == 'D'
+            base = base[2]
+        return eval_goal(label, gen[0], gen[1], gen[2], names, base, venv, penv, probes, impl_value, scale, dwrt=dwrt)
     vs = {k: lit(v) for k, v in venv.items()}
     ps = {k: lit(v) for k, v in penv.items()}
     fx = {name: (lambda alpha, args, p=p: p.coq(alpha, args)) for name, p in probes.items()}
